@@ -10,7 +10,7 @@ out.append('Every entry below was first raised by the real check on the unchange
            'with one small unguarded `fix:` commit in /repo (after which the 210-test baseline was re-run with `tools/check_baseline.py`: 210 passed, '
            'the same 5 failures as before) or recorded in `known_findings.json`.  The list is generated from that file.  F-numbers refer to the '
            'candidate list of the planning phase; "new" marks defects the planning probes had not seen.\n')
-out.append(f'### 4.1 Repaired ({len(fixed)} `fix:` commits; the entries suppress nothing)\n')
+out.append(f'### 4.1 Repaired ({len({f["commit"] for f in fixed})} `fix:` commits, {len(fixed)} entries; the entries suppress nothing)\n')
 out.append('| property | commit | what failed | violation key(s) before the repair |\n|---|---|---|---|')
 for f in fixed:
     out.append(f"| {f['property']} | `{f['commit']}` | {f['what']} | `{f['key']}` |")
